@@ -182,6 +182,8 @@ def classify(pre, post, d, kind, op):
         return y
     if strip_attrs(c) == strip_attrs(b):
         return 'consumer-attributes-lost'
+    if strip_attrs(strip_gens(c)) == strip_attrs(strip_gens(b)):
+        return 'consumer-attributes-lost+generations-differ'
     holders = {x[1] for x in d['allocs']}
     idle = set(d['consumers']) - holders
     if idle:
